@@ -27,9 +27,9 @@ claim("C07", "exploration", "runtime monitor of close_until returns: contract, e
       "Conditions are monotone public queries that first hold at different iterations; the stopped state must embed into the closed model and close() must complete it to exactly the direct result.", MODEL_NOTE, "§2 C07")
 claim("C15", "exploration", "runtime monitor: <enum>_case/_cases swept over every allocated enum id at quiescent points (panics caught), API-surface scan of generated modules, compile-side accept/reject programs",
       "Every enum element of every explored model is destructured; the generated API is scanned for other ways to obtain enum ids; rules defining non-constructor enum terms must be rejected.", MODEL_NOTE, "§2 C15")
-claim("C19", "exploration", "differential runtime monitor: the same histories on module-linked and component-linked drivers with byte comparison of full event logs, plus textual comparison of env structs / symbols / rule code",
+claim("C19", "exploration", "differential runtime monitor: the same histories on module-linked and component-linked drivers with byte comparison of full event logs, textual comparison of env structs / symbols / rule code, and a valgrind memcheck shard on the component-linked driver",
       "Both build types are produced by the real compiler (components through its own rustc invocations) and linked into two drivers; logs incl. per-iteration private dumps must be identical.", MODEL_NOTE, "§2 C19")
-claim("C20", "exploration", "differential runtime monitor across fresh processes with perturbed address-space layout, environment and allocator behaviour; byte comparison of transcripts",
+claim("C20", "exploration", "differential runtime monitor across fresh processes with perturbed address-space layout, environment and allocator behaviour, plus an AddressSanitizer build of module and runtime; byte comparison of transcripts",
       "Transcripts contain ids, return values and the iteration order of every public iterator and private index copy; any dependence on addresses/hash seeds/environment shows as a byte difference.", MODEL_NOTE, "§2 C20")
 claim("C17", "exploration", "runtime monitor on generated model theories: inheritance closure on the dump, closedness under explicit inheritance rules, equality with the reference free model, metamorphic timing variants (morphisms before/after facts and closes), and a mechanism monitor on private `_all` index copies at every condition evaluation",
       "Model theories (one model with member predicates, global rules over them, constants naming models and morphisms, dom/cod asserted or rule-derived) are compiled by the real compiler; histories that differ only in when the morphism diagram, the facts and the closes come must all close to the reference free model.", MODEL_NOTE + "; two theory families: member predicates over global types with generated rules, and a member type with member predicates/functions, morphism application and a pool of hand-written rules; one model per program; acyclic morphism diagrams only (close() rejects cycles by design)", "§2 C17")
